@@ -88,7 +88,13 @@ def guarded_names(ctx: Ctx, f: FunctionInfo, t: ast.AST) -> List[str]:
     """Sorted names of what a try body calls (role description of a handler, format independent)."""
     names: Set[str] = set()
     for n in try_body_calls(ctx, f, t):
+        c = n.callee
+        # a helper analysed in place contributes the calls of its body, not its own name; pure path spelling adds nothing
+        if c is not None and c.kind == "func" and c.funcs and all(ctx.prog.is_transparent(x) for x in c.funcs):
+            continue
         for nm in callee_names(n):
+            if nm in ("posixpath.join", "os.path.join", "posixpath.basename", "posixpath.dirname"):
+                continue
             if not nm.startswith(("logging.", "builtins.")):
                 names.add(nm.split(".")[-1] if nm.startswith(("method.", "str.", "list.", "dict.", "set.", "bytes.")) else nm)
     return sorted(names)
@@ -2373,3 +2379,44 @@ def temp_fd_writes(ctx: Ctx, f: FunctionInfo):  # type: ignore[no-untyped-def]
                    and isinstance(m.ast.func.value, ast.Name) and m.ast.func.value.id == recv.id]
         out.append((n, opens[0].args[0], flushes))
     return out
+
+
+def value_signature(ctx: Ctx, f: FunctionInfo, e: Optional[ast.AST], at: int, depth: int = 0) -> frozenset:
+    """What an expression denotes, spelled over the function's roots (parameters, attributes, calls): local names are expanded
+    through their reaching definitions and through helpers analysed in place, the alpha-renaming suffixes are dropped.  Two
+    expressions with one and the same single signature denote the same value (`path` and `f"{self.dir}/{name}"` rebuilt in
+    another helper from the same `name`)."""
+    import re as _re
+    if e is None or depth > 5:
+        return frozenset({"?"})
+    g = ctx.cfg(f)
+    outs = set()
+    for src, sat in resolve_value(ctx, f, e, at):
+        if src is None:
+            outs.add("?")
+            continue
+        if isinstance(src, ast.Name):
+            defs = ctx.rd(f).reaching(sat, src.id)
+            if not defs or g.entry in defs or depth > 4:
+                outs.add(_re.sub(r"__i\d+", "", src.id))
+                continue
+        import copy
+        tree = copy.deepcopy(src)
+        parts = {}
+        for x in ast.walk(src):
+            if isinstance(x, ast.Name) and isinstance(x.ctx, ast.Load) and x.id not in parts and x is not src:
+                defs = ctx.rd(f).reaching(sat, x.id)
+                if defs and g.entry not in defs:
+                    sig = value_signature(ctx, f, x, sat, depth + 1)
+                    if len(sig) == 1:
+                        parts[x.id] = next(iter(sig))
+        text = norm_text(tree)
+        for nm, sig in sorted(parts.items(), key=lambda kv: -len(kv[0])):
+            text = _re.sub(r"(?<![\w.])" + _re.escape(nm) + r"(?![\w])", "(" + sig + ")", text)
+        outs.add(_re.sub(r"__i\d+", "", text))
+    return frozenset(outs)
+
+
+def same_value(ctx: Ctx, f: FunctionInfo, e1: Optional[ast.AST], at1: int, e2: Optional[ast.AST], at2: int) -> bool:
+    a, b = value_signature(ctx, f, e1, at1), value_signature(ctx, f, e2, at2)
+    return len(a) == 1 and a == b and "?" not in a
